@@ -301,7 +301,7 @@ impl Topic {
             match r {
                 Ok(p) => old(self).partitions@.contains_key(partition_id) && *p == old(self).partitions@[partition_id]
                     && final(self).partitions@ == old(self).partitions@.insert(partition_id, *final(p)),
-                Err(_) => !old(self).partitions@.contains_key(partition_id) && final(self).partitions == old(self).partitions,
+                Err(_) => !old(self).partitions@.contains_key(partition_id) && final(self).partitions@ == old(self).partitions@,
             },
     { unimplemented!() }
 
